@@ -203,7 +203,7 @@ fn vq_c04_mgr_stream_impl_client_receive_only_uni() {
     kani::cover!(true, "reach:end");
 }
 
-//@ harness props=C04 tier=quick level=bounded timeout=900 bound="stream index 2^60-1 (role, initiator, index concrete; frame kind, frame fields and windows symbolic)"
+//@ harness props=C04 tier=thorough level=bounded timeout=1800 bound="stream index 2^60-1 (role, initiator, index concrete; frame kind, frame fields and windows symbolic)"
 //@ fn StreamImpl::new
 //@ fn StreamImpl::on_max_stream_data
 //@ fn StreamImpl::on_stop_sending
